@@ -88,6 +88,8 @@ type Pair struct {
 	// waits (bounded) until the application has released that message before it goes on - the
 	// interleaving in which a wrong "is it still mine?" decision of the library shows.
 	HoldAfterHijack atomic.Bool
+	// RespondViaSetMessage: server handlers answer with a message of their own (ResponseWriter.SetMessage)
+	RespondViaSetMessage atomic.Bool
 	hijackWait      sync.Map // *pool.Message -> chan struct{}
 }
 
@@ -322,6 +324,22 @@ func NewUDPPairN(poolSize int, rule Rule, nstart uint32) *Pair {
 			if b != nil {
 				rd = bytes.NewReader(b)
 			}
+			if p.RespondViaSetMessage.Load() {
+				// the application builds the response message itself and hands it over (ResponseWriter.SetMessage): the
+				// writer gives the message it had prepared back to the pool, the new one is released after sending
+				m := w.Conn().AcquireMessage(r.Context())
+				m.SetCode(code)
+				m.SetToken(r.Token())
+				m.SetContentFormat(message.AppOctets)
+				for _, o := range opts {
+					m.SetOptionBytes(o.ID, o.Value)
+				}
+				if rd != nil {
+					m.SetBody(rd)
+				}
+				w.SetMessage(m)
+				return
+			}
 			_ = w.SetResponse(code, message.AppOctets, rd, opts...)
 		})
 	})
@@ -466,6 +484,22 @@ func NewTCPPair(poolSize int) (*Pair, error) {
 			var rd io.ReadSeeker
 			if b != nil {
 				rd = bytes.NewReader(b)
+			}
+			if p.RespondViaSetMessage.Load() {
+				// the application builds the response message itself and hands it over (ResponseWriter.SetMessage): the
+				// writer gives the message it had prepared back to the pool, the new one is released after sending
+				m := w.Conn().AcquireMessage(r.Context())
+				m.SetCode(code)
+				m.SetToken(r.Token())
+				m.SetContentFormat(message.AppOctets)
+				for _, o := range opts {
+					m.SetOptionBytes(o.ID, o.Value)
+				}
+				if rd != nil {
+					m.SetBody(rd)
+				}
+				w.SetMessage(m)
+				return
 			}
 			_ = w.SetResponse(code, message.AppOctets, rd, opts...)
 		})
